@@ -111,7 +111,20 @@ def shard_crossover(col, module, chrom_len, pop_bound):
                              config_over={"search_algorithm__chromosome_length": chrom_len})
         pop, _ = tcenum.enumerate_testcases(world, [("insert",)] * 2, pop_bound)
         tests = [t for (t, _) in pop.values() if 1 <= t.size() <= chrom_len]
-        tests = tests[:40]
+        tests = tests[:20]
+        if chrom_len > 10:
+            # second parents with long dependency chains (a statement reading a variable that reads a
+            # variable ...): the tail-renaming / dropping logic of append_test_case_from only shows
+            # its transitive behaviour on chains of depth >= 3
+            pop3, _ = tcenum.enumerate_testcases(world, [("insert",)] * 3, pop_bound + 1, max_execs=6000)
+            deep = sorted((t for (t, _) in pop3.values() if t.size() <= 7),
+                          key=lambda t: (-_chain_depth(t), t.size(), t.to_code()))
+            seen_codes = {t.to_code() for t in tests}
+            for t in deep[:10]:
+                if t.to_code() not in seen_codes:
+                    tests.append(t)
+                    seen_codes.add(t.to_code())
+            col.note(f"{module}_max_chain_depth", max((_chain_depth(t) for t in tests), default=0))
         for a, b in itertools.product(range(len(tests)), repeat=2):
             ta, tb = tests[a], tests[b]
             for p1 in range(ta.size() + 1):
@@ -153,6 +166,18 @@ def shard_crossover(col, module, chrom_len, pop_bound):
         world.close()
     finally:
         _rm(scratch)
+
+
+def _chain_depth(test_case):
+    """Length of the longest def-use chain of var_N names in the test case."""
+    depth = {}
+    best = 0
+    for st in test_case.statements():
+        d = 1 + max((depth.get(v, 0) for v in st.used_variables()), default=0)
+        if st.bound_variable:
+            depth[st.bound_variable] = d
+        best = max(best, d)
+    return best
 
 
 def _scratch():
